@@ -211,11 +211,21 @@ func builtLateFields() *ir.Module {
 	ng.Linkage = enum.LinkageExternal
 	md := &metadata.Tuple{MetadataID: -1}
 	m.MetadataDefs = append(m.MetadataDefs, md)
+	var prev *ir.Func
 	for i := 0; i < 3; i++ {
 		f := m.NewFunc("", types.I64, ir.NewParam("", types.I64))
-		f.AddrSpace = types.AddrSpace(2 * i)
+		// a table entry that holds the function's address, made before the address space is chosen
+		tab := m.NewGlobalDef("", f)
+		tab.Immutable = true
+		f.AddrSpace = types.AddrSpace(2 * (i + 1))
+		tab.ContentType = types.NewPointer(f.Sig)
+		tab.ContentType.(*types.PointerType).AddrSpace = f.AddrSpace
 		f.Align = 16
 		b := f.NewBlock("")
+		if prev != nil {
+			b.NewPtrToInt(prev, types.I64) // a function as operand
+		}
+		prev = f
 		a := b.NewAlloca(types.I32)
 		a.AddrSpace = types.AddrSpace(5 * i)
 		a.Align = 8
